@@ -34,6 +34,10 @@ R = {
  "C01b-dirtied-set-cleared-after-propagation": ("C01", ["C01 quick: VIOLATION (38 s)", "C03 quick: VIOLATION (7 s)"], "caught as built (second, independent change for C01)"),
  "C09b-overlay-keeps-added-after-remove": ("C09", ["C09 quick: VIOLATION (39 s, set above the 1024 spill threshold)"], "caught as built (second, independent change for C09)"),
  "C03b-dirty-firewall-edge-means-recompute": ("C03", ["C03 quick: VIOLATION (44 s)", "C01 quick: OK (values stay correct)"], "caught as built (second, independent change for C03)"),
+ "C06b-cycle-search-single-forward-pass": ("C06", ["C06 quick: VIOLATION (41 s, a request never completed: no task runnable)"], "caught as built (idle-runtime deadlock oracle; second change for C06)"),
+ "C05b-computing-guard-not-released-while-panicking": ("C05", ["C05 quick: VIOLATION (38 s, a later request never completed)"], "caught as built (second change for C05)"),
+ "C08b-pending-projection-marker-in-own-batch": ("C08", ["C08 quick: VIOLATION (71 s, image 25/38)"], "caught as built (second change for C08)"),
+ "C02b-backward-edge-set-upgrade-under-read-lock": ("C02", ["C02 quick: VIOLATION (58 s, CompressedBackwardEdgeSet thread plans: 7 of 42 elements lost)"], "caught as built (second change for C02; it re-introduces the defect fixed by d82e202)"),
 }
 rows = []
 for sid, (prop, ran, note) in R.items():
